@@ -178,7 +178,7 @@ theorem step_sat (oc : Bool) (b : Buf) (op : Op) (h : b.WInv) :
           have hn : n ≤ b.wi - b.ri := by rw [← hl]; exact hb.2.2.2
           exact sat_of _ _ _ _ (consume_WInv b n h hn) (by simp [effOf, consume_readable b n h hn, hb.2.2.2])
   | tryParse ops sm =>
-    rcases step_tryParse_cases oc b ops sm h with ⟨_, ho, k, hr⟩ | ⟨_, ho, hr⟩
+    rcases step_tryParse_cases oc b ops sm h with ⟨_, ho, k, hr⟩ | ⟨_, ho, hr, _⟩
     · rw [ho]
       refine sat_of _ _ _ _ (Reads.WInv h hr) ?_
       simp only [effOf]
